@@ -141,7 +141,9 @@ def boot(cfg, use_threads=False, ctx=None):
     txlog.startLoggingWithObserver(lambda e: None, setStdout=False)
 
   import twisted.internet.protocol as tip
+  import random as _random
   w.tip = tip
+  tip.random = _random.Random(0)    # reconnect back-off jitter (worlds may re-seed it per plan)
 
   from carbon.database import TimeSeriesDatabase
   from . import simdb as simdb_mod
@@ -201,6 +203,13 @@ def boot(cfg, use_threads=False, ctx=None):
     import carbon.client as cclient
     cclient.time = st.time
     w.client_mod = cclient
+    # CarbonClientManager.getFactories() returns a *set* of factory objects whose
+    # iteration order would otherwise follow their memory addresses: pin it with an
+    # address- and PYTHONHASHSEED-independent hash (equality stays identity)
+    import zlib
+    cclient.CarbonClientFactory.__hash__ = \
+        lambda self: zlib.crc32(repr(self.destination).encode('utf-8'))
+    cclient.FakeClientFactory.__hash__ = lambda self: 0
   if daemon == 'aggregator':
     import carbon.aggregator.buffers as cbuffers
     import carbon.aggregator.rules as crules
